@@ -188,7 +188,7 @@ def forall_overlap(g, P):
                                     or (tk == "user" and rk == "user" and g.compatible(tf["type"]["name"], rf["type"]["name"])))
                         # targets that the action writes already, or that nobody else writes, first
                         own = tf["name"] in seen or not (writers.get(tf["name"], set()) - {a["name"]})
-                        cands += [(a, tf, k, rf, j, value_ok)] * (3 if own else 1)
+                        cands += [(a, tf, k, rf, j, value_ok)] * ((3 if own else 1) * (3 if value_ok else 1))
     r.shuffle(cands)
     for a, tf, k, rf, j, value_ok in cands[:6]:
         params = {p["name"]: p["type"] for p in a["params"]}
